@@ -117,6 +117,10 @@ def must_reject_cases():
         yield ("also:with-bad-target-kind", cname), wrap("with (monster 1) { x(); }")
         yield ("also:inline-ctx-in-with", cname), wrap("with (actor 1) { x<object 2>(); }")
         yield ("also:posmark-bad-fraction", cname), wrap("x(Position<'m', 1.25, 2>);")
+        if cname == "routine":
+            for frac in ("20.05", "1.55", "3.505", "0.05", "2.6", "-1.05"):
+                yield ("also:posmark-bad-fraction-" + frac, cname), wrap(f"x(Position<'m', {frac}, 2>);")
+                yield ("also:posmark-bad-fraction-y-" + frac, cname), wrap(f"x(Position<'m', 2, {frac}>);")
         if "macro" not in flags:
             yield ("too-few-macro-args", cname), "macro two($a, $b) { x($a, $b); } " + wrap("~two(1);")
     # the same control statements behind a construct that has already been closed (in the same block, and in the routine
